@@ -246,6 +246,169 @@ def h_jagged_apply(w, n, L, lens):
     return discharge(h, '%s n=%d slice lens=%s' % (cname, n, lens), oracle, tw, extra=dict(bounds=dict(n=n, L=L, slice_lens=list(lens))))
 
 
+# ------------------------------------------------------------------------------------------------- more carry / jagged kernels
+@guard
+def h_index_carry(cname, n, m):
+    """Index carry: toindex[i] = fromindex[carry[i]]; an out-of-range carry raises and never reads outside fromindex"""
+    ct = {'Index8': 'int8_t', 'IndexU8': 'uint8_t', 'Index32': 'int32_t', 'IndexU32': 'uint32_t', 'Index64': 'int64_t'}[cname.split('_')[1]]
+    nocheck = 'nocheck' in cname
+    h = Harness(cname, unwind=n + 4)
+    h.scalar('lenfromindex', 'int64_t', m); h.scalar('length', 'int64_t', n)
+    h.arr('toindex', ct, n); h.arr('fromindex', ct, m, const=True); h.arr('carry', 'int64_t', n, const=True)
+    if nocheck:
+        for i in range(n):
+            h.assume(h.init('carry', i) >= 0, h.init('carry', i) < m)
+        h.kcall(cname, [('buf', 'toindex'), ('buf', 'fromindex'), ('buf', 'carry'), 'length'])
+    else:
+        h.kcall(cname, [('buf', 'toindex'), ('buf', 'fromindex'), ('buf', 'carry'), 'lenfromindex', 'length'])
+
+    def oracle(io):
+        out, bad = [], []
+        for i in range(n):
+            j = io.x('carry', i)
+            bad.append(z3.Or(j < 0, j >= m))
+            v = BV(0)
+            for k in range(m):
+                v = z3.If(j == k, io.x('fromindex', k), v)
+            out.append(('toindex[%d] = fromindex[carry[%d]]' % (i, i), z3.And(z3.Not(io.err()), z3.Not(bad[-1]), io.y('toindex', i) != v)))
+        out.append(('error iff some carry is outside [0, len(fromindex))', io.err() != z3.Or(bad + [z3.BoolVal(False)])) if not nocheck else ('no error', io.err()))
+        return out
+    return discharge(h, '%s n=%d m=%d' % (cname, n, m), oracle, [('ok', z3.Not(h.errs[-1][2]))], extra=dict(bounds=dict(n=n, m=m)))
+
+
+@guard
+def h_regular_range(n, size, nextsize):
+    cname = 'awkward_RegularArray_getitem_next_range_64'
+    h = Harness(cname, unwind=n * nextsize + n + nextsize + 4)
+    h.scalar('regular_start', 'int64_t'); h.scalar('step', 'int64_t'); h.scalar('length', 'int64_t', n); h.scalar('size', 'int64_t', size)
+    h.scalar('nextsize', 'int64_t', nextsize)
+    rs, st = h.scalars['regular_start'][0], h.scalars['step'][0]
+    # as RegularArray::getitem_next(SliceRange) establishes: the nextsize positions start, start+step, ... lie inside [0, size)
+    h.assume(st != 0, st >= -4, st <= 4)
+    for j in range(nextsize):
+        h.assume(rs + j * st >= 0, rs + j * st < size)
+    h.arr('tocarry', 'int64_t', n * nextsize)
+    h.kcall(cname, [('buf', 'tocarry'), 'regular_start', 'step', 'length', 'size', 'nextsize'])
+
+    def oracle(io):
+        return [('no error', io.err())] + [('row %d selection %d = i*size + start + j*step' % (i, j), io.y('tocarry', i * nextsize + j) != i * size + io.sc('regular_start') + j * io.sc('step'))
+                                           for i in range(n) for j in range(nextsize)]
+    return discharge(h, '%s n=%d size=%d nextsize=%d' % (cname, n, size, nextsize), oracle, [], extra=dict(bounds=dict(n=n, size=size, nextsize=nextsize)))
+
+
+@guard
+def h_regular_carry(n, size):
+    cname = 'awkward_RegularArray_getitem_carry_64'
+    h = Harness(cname, unwind=n * size + n + size + 4)
+    h.scalar('lencarry', 'int64_t', n); h.scalar('size', 'int64_t', size)
+    h.arr('tocarry', 'int64_t', n * size); h.arr('fromcarry', 'int64_t', n, const=True)
+    for i in range(n):
+        h.assume(h.init('fromcarry', i) >= 0, h.init('fromcarry', i) <= 2 ** 40)
+    h.kcall(cname, [('buf', 'tocarry'), ('buf', 'fromcarry'), 'lencarry', 'size'])
+
+    def oracle(io):
+        return [('no error', io.err())] + [('carried row %d element %d' % (i, j), io.y('tocarry', i * size + j) != io.x('fromcarry', i) * size + j) for i in range(n) for j in range(size)]
+    return discharge(h, '%s n=%d size=%d' % (cname, n, size), oracle, [], extra=dict(bounds=dict(n=n, size=size)))
+
+
+@guard
+def h_union_project(cname, n):
+    sp = kspec.spec_by_name()[cname]
+    A = {a.name: a for a in sp.args}
+    h = Harness(cname, unwind=n + 4)
+    h.scalar('length', 'int64_t', n); h.scalar('which', 'int64_t')
+    h.assume(h.scalars['which'][0] >= 0, h.scalars['which'][0] <= 127)
+    h.arr('lenout', 'int64_t', 1); h.arr('tocarry', 'int64_t', n)
+    h.arr('fromtags', A['fromtags'].ctype, n, const=True); h.arr('fromindex', A['fromindex'].ctype, n, const=True)
+    h.kcall(cname, [('buf', 'lenout'), ('buf', 'tocarry'), ('buf', 'fromtags'), ('buf', 'fromindex'), 'length', 'which'])
+
+    def oracle(io):
+        out = [('no error', io.err())]
+        k = BV(0)
+        for i in range(n):
+            hit = io.x('fromtags', i) == io.sc('which')
+            out.append(('element %d of the projected content is carried in order' % i, z3.And(hit, io.y('tocarry', k) != io.x('fromindex', i))))
+            k = z3.If(hit, k + 1, k)
+        out.append(('lenout = number of elements with that tag', io.y('lenout', 0) != k))
+        return out
+    return discharge(h, '%s n=%d' % (cname, n), oracle, [], extra=dict(bounds=dict(n=n)))
+
+
+@guard
+def h_jagged_descend_expand(w, n, L, lens):
+    """jagged slice of lists: descend requires equal inner lengths and returns compact offsets; expand replicates the single jagged
+    slice over every list of a regular-length dimension and carries start..start+size"""
+    ct = ctype_of('ListArray' + w)
+    c1, c2 = 'awkward_ListArray%s_getitem_jagged_descend_64' % w, 'awkward_ListArray%s_getitem_jagged_expand_64' % w
+    h = Harness([c1, c2], unwind=n * (L + 2) + 6)
+    h.scalar('sliceouterlen', 'int64_t', n)
+    h.arr('slicestarts', 'int64_t', n, const=True); h.arr('slicestops', 'int64_t', n, const=True)
+    for i in range(n):
+        a, b = h.init('slicestarts', i), h.init('slicestops', i)
+        h.assume(a >= 0, b >= a, b - a <= L, b <= 2 ** 40)
+    decl_lists(h, n, L, ct, lens=lens)
+    h.arr('tooffsets', 'int64_t', n + 1)
+    h.kcall(c1, [('buf', 'tooffsets'), ('buf', 'slicestarts'), ('buf', 'slicestops'), 'sliceouterlen', ('buf', 'fromstarts'), ('buf', 'fromstops')])
+    js = lens[0] if lens else 0
+    h.scalar('jaggedsize', 'int64_t', js); h.scalar('length', 'int64_t', n)
+    h.arr('singleoffsets', 'int64_t', js + 1, const=True)
+    for nm in ('multistarts', 'multistops', 'tocarry'):
+        h.arr(nm, 'int64_t', n * js)
+    h.kcall(c2, [('buf', 'multistarts'), ('buf', 'multistops'), ('buf', 'singleoffsets'), ('buf', 'tocarry'), ('buf', 'fromstarts'), ('buf', 'fromstops'), 'jaggedsize', 'length'])
+
+    def oracle(io):
+        out = []
+        mism = [io.x('slicestops', i) - io.x('slicestarts', i) != lens[i] for i in range(n)]
+        out.append(('descend: error iff some slice list length differs from the array list length', io.err(0) != z3.Or(mism + [z3.BoolVal(False)])))
+        ok = z3.Not(io.err(0))
+        if n:
+            out.append(('descend: offsets start at the first slice start', z3.And(ok, io.y('tooffsets', 0) != io.x('slicestarts', 0))))
+        for i in range(n):
+            out.append(('descend: offsets[%d] - offsets[%d] = list length' % (i + 1, i), z3.And(ok, io.y('tooffsets', i + 1) - io.y('tooffsets', i) != lens[i])))
+        irregular = any(l != js for l in lens)
+        out.append(('expand: error iff some list length differs from the jagged size', io.err(1) != z3.BoolVal(irregular)))
+        if not irregular:
+            for i in range(n):
+                for j in range(js):
+                    out.append(('expand: (%d,%d) carries start + j' % (i, j), io.y('tocarry', i * js + j) != io.x('fromstarts', i) + j))
+                    out.append(('expand: (%d,%d) slice bounds repeat per list' % (i, j), z3.Or(io.y('multistarts', i * js + j) != io.x('singleoffsets', j),
+                                                                                         io.y('multistops', i * js + j) != io.x('singleoffsets', j + 1))))
+        return out
+    return discharge(h, 'ListArray%s jagged descend/expand n=%d lens=%s' % (w, n, lens), oracle, [], extra=dict(bounds=dict(n=n, lens=list(lens))))
+
+
+@guard
+def h_jagged_missing(n, lens, M):
+    """jagged slice with missing values: numvalid counts, shrink keeps the positions of the non-missing entries per list"""
+    c1, c2 = 'awkward_ListArray_getitem_jagged_numvalid_64', 'awkward_ListArray_getitem_jagged_shrink_64'
+    tot = sum(lens)
+    offs = [sum(lens[:i]) for i in range(n + 1)]
+    h = Harness([c1, c2], unwind=n + tot + 6)
+    h.scalar('length', 'int64_t', n); h.scalar('missinglength', 'int64_t', tot)
+    h.array('slicestarts', 'int64_t', n, const=True, values=offs[:n]); h.array('slicestops', 'int64_t', n, const=True, values=offs[1:])
+    h.arr('missing', 'int64_t', tot, const=True)
+    h.arr('numvalid', 'int64_t', 1)
+    h.kcall(c1, [('buf', 'numvalid'), ('buf', 'slicestarts'), ('buf', 'slicestops'), 'length', ('buf', 'missing'), 'missinglength'])
+    nv = h.out('numvalid', 0)
+    h.arr('tocarry', 'int64_t', nv, cap_c='numvalid[0]'); h.arr('tosmalloffsets', 'int64_t', n + 1); h.arr('tolargeoffsets', 'int64_t', n + 1)
+    h.kcall(c2, [('buf', 'tocarry'), ('buf', 'tosmalloffsets'), ('buf', 'tolargeoffsets'), ('buf', 'slicestarts'), ('buf', 'slicestops'), 'length', ('buf', 'missing')])
+
+    def oracle(io):
+        out = [('no error', z3.Or(io.err(0), io.err(1)))]
+        k = BV(0)
+        for i in range(n):
+            for p in range(lens[i]):
+                j = offs[i] + p
+                valid = io.x('missing', j) >= 0
+                out.append(('list %d entry %d: position of a non-missing entry is kept in order' % (i, p), z3.And(valid, io.y('tocarry', k) != j)))
+                k = z3.If(valid, k + 1, k)
+            out.append(('small offsets[%d] = non-missing entries so far' % (i + 1), io.y('tosmalloffsets', i + 1) - io.y('tosmalloffsets', 0) != k))
+            out.append(('large offsets[%d] = all entries so far' % (i + 1), io.y('tolargeoffsets', i + 1) - io.y('tolargeoffsets', 0) != offs[i + 1]))
+        out.append(('numvalid = number of non-missing entries', io.y('numvalid', 0) != k))
+        return out
+    return discharge(h, 'jagged slice with missing values n=%d lens=%s' % (n, lens), oracle, [], extra=dict(bounds=dict(n=n, lens=list(lens))))
+
+
 # ------------------------------------------------------------------------------------------------- RegularArray
 @guard
 def h_regular_at(n):
@@ -451,6 +614,24 @@ def jobs(tier):
         for n in range(1, N + 1):
             for lens in itertools.product(range(3), repeat=n):
                 js.append((h_jagged_apply, (w, n, L, lens), 900))
+    for ix in ('Index8', 'IndexU8', 'Index32', 'IndexU32', 'Index64'):       # not listed in kernel-specification.yml at all
+        for suffix in ('carry_64', 'carry_nocheck_64'):
+            for n in (1, 2):
+                js.append((h_index_carry, ('awkward_%s_%s' % (ix, suffix), n, 2), 600))
+    for s_ in K['awkward_UnionArray_project'].specs:
+        js.append((h_union_project, (s_.name, 3), 600))
+    for n in range(N + 1):
+        for size in range(0, 4):
+            js.append((h_regular_carry, (n, size), 300))
+            for nextsize in range(0, size + 1):
+                js.append((h_regular_range, (n, size, nextsize), 300))
+    for w in ['64', '32', 'U32']:
+        for n in range(0, N + 1):
+            for lens in itertools.product(range(3), repeat=n):
+                js.append((h_jagged_descend_expand, (w, n, 2, lens), 600))
+    for n in range(1, N + 1):
+        for lens in itertools.product(range(3), repeat=n):
+            js.append((h_jagged_missing, (n, lens, 0), 600))
     for n in range(N + 1):
         js.append((h_regular_at, (n,), 600))
         for m in range(M + 1):
